@@ -47,6 +47,12 @@ FEATURES.update({
     'keyword-then-based-rule': "@@keyword :: ab\n\nbase: 'a' ;\n\nstart < base: id ;\n\n@name\nid: /[a-z]+/ ;\n",
     'many-keywords': "@@keyword :: " + ' '.join(f'kw{i}longlonglong' for i in range(12)) + " b\n\nstart: {id}+ $ ;\n\n@name\nid: /[a-z]+/ ;\n",
     'multiline-constant': "start: 'a' c:```one\ntwo``` | 'b' ^```warn\nmore``` ;\n",
+    # double-width characters in every alternative of choices with 2..4 alternatives (railroad rails are padded per alternative)
+    'wide-first': "start: '日本' | 'a' | 'b' | 'c' ;\n",
+    'wide-inner': "start: 'a' | '日本' 'b' | 'c' ;\n",
+    'wide-inner-2': "start: 'a' | 'b' | '日本語' 'x' | 'c' $ ;\n",
+    'wide-last': "start: 'a' | 'b' | '日本' ;\n",
+    'wide-names': "start: 'a' | x:'ｗ' y:`日本` | [ '世' ] 'c' | {'界'} ;\n",
     # bodies long enough to be printed over several lines (each element printer has a one-line and a multi-line branch)
     'long-gather': "start: ','.{" + ' | '.join(f"'{c * 20}'" for c in 'abc') + "}+ $ ;\n",
     'long-join': "start: ';'%{" + ' | '.join(f"'{c * 20}'" for c in 'abc') + "} $ ;\n",
